@@ -140,3 +140,26 @@ def tune_by_points(cell, grid, weights, sigma2, flocal, idx, delta, tune, fpoint
             break
         j += 1
     return sigma2, flocal, wlocal
+
+
+# ---- equivalent spelling (confirmed by hand) -----------------------------------------------------------------
+def tune_by_points_halving(cell, grid, weights, sigma2, flocal, idx, delta, tune, fpoints):
+    # the bisection with a running half-step (tune/2, tune/4, ...: halving is exact) and the exit test as the loop
+    # condition; the body runs at least once, like `while True ... break`
+    lim = fpoints
+    if lim <= weights[idx]:
+        lim = weights[idx] + delta
+    while flocal[idx] < lim:
+        sigma2[idx] += tune
+        wlocal, flocal[idx] = population(cell, grid, grid[idx], weights, sigma2[idx])
+    step = tune
+    converged = False
+    while not converged:
+        step = step / 2
+        if flocal[idx] > lim:
+            sigma2[idx] -= step
+        else:
+            sigma2[idx] += step
+        wlocal, flocal[idx] = population(cell, grid, grid[idx], weights, sigma2[idx])
+        converged = abs(flocal[idx] - lim) < delta
+    return sigma2, flocal, wlocal
